@@ -234,6 +234,34 @@ def hTod : Handler
     showExcept showRes (parseTimeOfToday drvUni (enTodCfg drvUni) t (if parseBool matched then some (parseCps ms) else none) (parseDT ref))
   | _ => "bad-op"
 
+/-! The entity-level compositions the C06 / C07 theorems are stated about (audit item 35: they had no correspondence op; only
+their parts `zhtime`, `m2dzh`, `tod`, `res` had):  rtimezh / rdatezh / rtod take the fields of zhtime / m2dzh / tod and answer
+the `values` of `resolveTimeZh` / `resolveDateZh` / `resolveTimeOfToday`. -/
+def hRTimeZh : Handler
+  | [ref, variant, chinese, hour, min, sec, quarter, half, daydesc] =>
+    let cfg := zhCfgOf (parseBool variant)
+    let g : ZhGroups := { hour := parseCps hour, min := parseCps min, sec := parseCps sec, quarter := parseCps quarter,
+                          half := parseCps half, daydesc := parseCps daydesc }
+    showExcept showValues (resolveTimeZh drvUni cfg (parseBool chinese) g (parseDT ref))
+  | _ => "bad-op"
+
+def hRDateZh : Handler
+  | [ref, y, fy, m, d, cy] =>
+    match dateCfgOf "zh" with
+    | some cfg => showExcept showValues (resolveDateZh drvUni cfg (parseDateGroups y fy m d) (parseInt cy) (parseDT ref))
+    | none => "bad-op"
+  | _ => "bad-op"
+
+def hRTod : Handler
+  | [ref, kind, hourG, hourNum, tOk, tTimex, tFut, matched, ms] =>
+    let t : TodTime :=
+      if kind == "whole" then .whole (if hourG == "none" then none else some (parseCps hourG)) (parseCps hourNum)
+      else if kind == "parsed" then
+        .parsed (toSlot .time { success := parseBool tOk, timex := parseCps tTimex, future := parseDT tFut, past := parseDT tFut })
+      else .nothing
+    showExcept showValues (resolveTimeOfToday drvUni (enTodCfg drvUni) t (if parseBool matched then some (parseCps ms) else none) (parseDT ref))
+  | _ => "bad-op"
+
 def showPRes (r : PRes) : String :=
   s!"{showBool r.success}|{showCps r.timex}|{showCps r.comment}|{r.startS}|{r.endS}"
 
@@ -278,6 +306,9 @@ def dispatchDtRes (op0 : String) (args : List String) : Option String :=
   | "dt.rdate" => some (hRDate u args)
   | "dt.rtime" => some (hRTime u args)
   | "dt.rdt" => some (hRDt u args)
+  | "dt.rtimezh" => some (hRTimeZh u args)
+  | "dt.rdatezh" => some (hRDateZh u args)
+  | "dt.rtod" => some (hRTod u args)
   | _ => none
 
 end RTV.Drv
